@@ -59,6 +59,14 @@ impl HeaderField {
 //@endfn
 //@endimpl
 
+//@impl src/common.rs "Method"
+//@fn as_str ret r props C10
+//@spec
+    // (part of the common API that every unit may call by contract, contracts/common_api_assumed.inc)
+    ensures *self is Get ==> r@ == "GET"@, *self is Head ==> r@ == "HEAD"@, *self is Post ==> r@ == "POST"@,
+//@endfn
+//@endimpl
+
 //@impl src/common.rs "FromStr for Method"
 //@fn from_str ret r props C02,C10
 //@spec
